@@ -1,2 +1,3 @@
 import Gts.Model.OpsAll
 import Gts.Lemmas.Push
+import Gts.Props.C09
